@@ -1,0 +1,14 @@
+//go:build verif
+
+package clientpb
+
+// VerifYield, if set, is called at scheduling points that matter for interleaving
+// (currently: a Get call has been woken by the ready signal and has not yet looked at the cache).
+// A deterministic simulator uses it to decide when the goroutine proceeds.
+var VerifYield func(point string)
+
+func verifYield(point string) {
+	if f := VerifYield; f != nil {
+		f(point)
+	}
+}
